@@ -40,7 +40,11 @@ func (n *MixedValueNode) AddConstraint(c constraint.Constraint) {
 	switch t := c.(type) {
 	case *constraint.TypeConstraint:
 		n.addTypeConstraint(t)
-		n.types = []string{t.Bytes().String()}
+		// `type: "mixed"` written next to a `@a | @b` shortcut names no type of its
+		// own: the types listed by the shortcut stay.
+		if len(n.types) == 0 || t.Bytes().Unquote().String() != "mixed" {
+			n.types = []string{t.Bytes().String()}
+		}
 
 	case *constraint.Or:
 		n.addOrConstraint(t)
